@@ -10,8 +10,8 @@ def generate(T, tier):
         {"name": "c17::desc_from_str_4", "group": "stub", "tier": "quick", "bounds": "From<&str> for Df88591String<4>, string of <= 5 symbolic chars (1-4 byte encodings)"},
         {"name": "c17::utf8_5", "group": "stub", "tier": "quick", "bounds": "ArrayString<5> from <= 4 chars: every straddling of the capacity"},
         {"name": "c17::utf8_8", "group": "stub", "tier": "thorough", "bounds": "ArrayString<8> from <= 4 chars"},
-        {"name": "c17::msg1029_decode", "group": "stub", "tier": "quick", "bounds": "1029 text decoder: byte count <= 4, all byte values"},
-        {"name": "c17::msg1029_encode_limits", "group": "stub", "tier": "quick", "bounds": "1029 text encoder: ASCII text of every length 0..=130 (127/128 character boundary)"},
+        {"name": "c17::msg1029_decode", "group": "stub", "tier": "thorough", "bounds": "1029 text decoder: byte count <= 4, all byte values"},
+        {"name": "c17::msg1029_encode_limits", "group": "stub", "tier": "thorough", "bounds": "1029 text encoder: ASCII text of every length 0..=130 (127/128 character boundary)"},
     ]
     return {
         "harnesses": hs,
